@@ -1,6 +1,6 @@
 (* C07 proofs, part 4: the theorem for the fragment  identifiers / numbers / binary operators / parentheses. *)
 From Coq Require Import List NArith Bool Arith Lia.
-From CV Require Import Ast.Defs Ast.Basics Ast.Ctx Ast.Stage1.
+From CV Require Import Ast.Defs Ast.Frag Ast.Basics Ast.Ctx Ast.Stage1.
 Import ListNotations.
 
 (* stage 1 fragment: all binary left-associative levels over identifiers and numbers, with parentheses *)
